@@ -141,7 +141,7 @@ class Prop:
     case_module = "CaseC06"
     case_vo = "theories/Cases/CaseC06.vo"
     run_fn = "run06"
-    post_variants = {"quick": 40, "thorough": 400}
+    post_variants = {"quick": 40, "thorough": 120}
     post_ops = ("move", "sort", "add")      # start nodes are named by allocation index: nothing may disappear
     shard = 8
     rule = ("clone / equal-data labelings of every shape with 2..5 (thorough 6) nodes: one object everywhere under distinct explicit ids, "
@@ -241,7 +241,7 @@ class Prop:
                         variants.append(("targeted", univ, tg))
                     for _nm, vuniv, vnodes in variants:
                         yield dict(typed=False, univ=vuniv, nodes=vnodes, sn=lsn, sk=lsk, sel=lsel)
-        nrand = 18 if quick else 60
+        nrand = 18 if quick else 45
         top = 60 if quick else 200
         for j in range(nrand):
             n = rng.randint(8, top if j % 3 == 0 else max(8, top // 3))
